@@ -17,7 +17,7 @@ from checks import common
 PROPERTY = "C08"
 LEVEL = "exploration"
 MODES = ["O0"]
-TIERS = {"quick": {"runs": 3000, "wall": 55}, "thorough": {"runs": 60000, "wall": 1500}}
+TIERS = {"quick": {"runs": 6000, "wall": 55}, "thorough": {"runs": 60000, "wall": 1500}}
 RULE = ("plan = seeded directory (0..12 well-formed PELs, name styles bmc/plain/numeric/mixed, optional "
         "extensions) + option set + -r/-e/-x/-P + one readdir permutation per invocation; "
         "distinct_nontrivial counts distinct abstract traces (number of files, number selected, option set, "
